@@ -333,8 +333,30 @@ func myBubble() string {
 
 type stub struct{ s *Session }
 
+// intercept plays a client stream interceptor on the tunnel-opening call: it adds a metadata key to
+// the context the stream is created with (what the wire carries and what stream.Context() returns).
+func (s *Session) intercept(ctx context.Context) context.Context {
+	if s.Cfg.Icept {
+		return metadata.AppendToOutgoingContext(ctx, "x-intercepted", "by-stream-interceptor")
+	}
+	return ctx
+}
+
+func (s *Session) openingMD() metadata.MD {
+	md := toMD(s.Cfg.TunnelMD)
+	if s.Cfg.Icept && s.Cfg.RawCli == "" && s.Cfg.RawSrv == "" {
+		if md == nil {
+			md = metadata.MD{}
+		}
+		md = md.Copy()
+		md.Append("x-intercepted", "by-stream-interceptor")
+	}
+	return md
+}
+
 func (st stub) OpenTunnel(ctx context.Context, opts ...grpc.CallOption) (grpc.BidiStreamingClient[tunnelpb.ClientToServer, tunnelpb.ServerToClient], error) {
 	s := st.s
+	ctx = s.intercept(ctx)
 	car := sim.New(ctx, sim.Options{T: 1, Cap: s.Cfg.Cap, Auto: s.Cfg.Auto, Log: s.Log, Yield: s.carYield, ServerCtx: withInterceptorValue})
 	s.setCarrier(car)
 	if s.Cfg.RawSrv == "" {
@@ -352,6 +374,7 @@ func (st stub) OpenTunnel(ctx context.Context, opts ...grpc.CallOption) (grpc.Bi
 
 func (st stub) OpenReverseTunnel(ctx context.Context, opts ...grpc.CallOption) (grpc.BidiStreamingClient[tunnelpb.ServerToClient, tunnelpb.ClientToServer], error) {
 	s := st.s
+	ctx = s.intercept(ctx)
 	car := sim.New(ctx, sim.Options{T: 1, Reverse: true, Cap: s.Cfg.Cap, Auto: s.Cfg.Auto, Log: s.Log, Yield: s.carYield, ServerCtx: withInterceptorValue})
 	s.setCarrier(car)
 	if s.Cfg.RawCli == "" {
@@ -447,7 +470,7 @@ func (s *Session) open() {
 	s.handler = grpctunnel.NewTunnelServiceHandler(hopts)
 	s.emit("open", tr.E{"dir": cfg.Dir, "cliNoFC": cfg.CliNoFC, "srvNoFC": cfg.SrvNoFC,
 		"rawCli": cfg.RawCli, "rawSrv": cfg.RawSrv, "cap": cfg.Cap, "auto": cfg.Auto,
-		"tmd": wire.MD(toMD(cfg.TunnelMD))})
+		"tmd": wire.MD(s.openingMD())})
 	switch cfg.Dir {
 	case "fwd":
 		s.handler.RegisterService(&serviceDesc, &service{s})
